@@ -131,7 +131,7 @@ pub fn finish_sweep(prop: &mut dyn Prop, tier: Tier, rr: &RunResult) -> i32 {
         "exhaustive": prop.exhaustive(),
         "cases_in_space": rr.n_cases,
         "distinct_outcome_classes": rr.classes.len(),
-        "outcome_classes": top(&rr.classes, 40),
+        "outcome_classes": top(&rr.classes, 300),
         "notes": top(&rr.notes, 40),
         "violations_detail": viol_json,
         "known_findings_matched": known,
